@@ -13,9 +13,12 @@
 // which a reactor of the scheduler-side KAI clientset refuses the DELETE of stale BindRequests (of pod p, or of
 // every pod for p = ""): the cycle is run as scheduler.runOnce does (an OpenSession error ends it).
 //
-// Input (-in): ndjson schedules {"id","lim","req":{"p1":100,..},"present":["p1",..],"steps":[{"n","p","out"}]}
+// Pods with a DRA resource claim ("cl": the node publishes its GPUs as DRA devices, the real dynamicresources
+// plugins of scheduler and binder run, out = "failclaim" refuses the claim's status update): see claim.go.
+//
+// Input (-in): ndjson schedules {"id","lim","gpus","req":{"p1":100,..},"nd":{..},"cl":{..},"present":["p1",..],"steps":[{"n","p","out"}]}
 // as exported by TLC from spec/Handoff.tla (a step that is not enabled in the real state is skipped and
-// logged with skip=1); or -random N -seed S -len K -pods P: seeded random schedules over the enabled steps.
+// logged with skip=1); or -random N -seed S -len K -pods P -claims PCT: seeded random schedules over the enabled steps.
 // Output (-out): ndjson trace: a Scenario line, then one line per step with the projection of the real
 // stores (`st`), of the real snapshot (`snap`, cycles only) and of the reconcile result (`rec`).
 // Integers and strings only; -1 = nil backoffLimit; quantities in centi-GPU / milli-CPU.
@@ -64,7 +67,6 @@ import (
 	schedulingv2alpha2 "github.com/NVIDIA/KAI-scheduler/pkg/apis/scheduling/v2alpha2"
 	"github.com/NVIDIA/KAI-scheduler/pkg/binder/binding"
 	"github.com/NVIDIA/KAI-scheduler/pkg/binder/controllers"
-	binderplugins "github.com/NVIDIA/KAI-scheduler/pkg/binder/plugins"
 	commonconsts "github.com/NVIDIA/KAI-scheduler/pkg/common/constants"
 	"github.com/NVIDIA/KAI-scheduler/pkg/common/resources"
 	"github.com/NVIDIA/KAI-scheduler/pkg/scheduler/actions"
@@ -102,6 +104,7 @@ type scenario struct {
 	Gpus    int            `json:"gpus"` // GPU devices of the node
 	Req     map[string]int `json:"req"`  // centi-GPU per device: 100 = one whole GPU, < 100 = fraction
 	Nd      map[string]int `json:"nd"`   // devices of a fractional pod (2 = gpu-fraction-num-devices: 2)
+	Cl      map[string]int `json:"cl"`   // 1 = the pod asks for its GPU through a DRA resource claim (req = 100); see claim.go
 	Present []string       `json:"present"`
 	Steps   []step         `json:"steps"`
 }
@@ -137,8 +140,11 @@ type world struct {
 	crashAfterLabel bool // the binder dies right after the next label patch that adds a group
 	dead            bool // ... from then on nothing reaches the store
 	reserveCalls    int
+	failClaimWrite  bool // the API server refuses the status update of a ResourceClaim (claim.go)
+	rv              int  // resourceVersion counter of the DRA objects (claim.go)
 	// observations of the reconcile in flight
 	bindCalled, bindFailed, getFailed bool
+	claimWriteFailed                  bool
 
 	// fault injection for the scheduler cycle in flight: DELETE of the BindRequest of these pods is refused
 	refuseDelete   bool
@@ -220,6 +226,9 @@ func newWorld(sc scenario, pods []string) *world {
 			infra("create object: %v", err)
 		}
 	}
+	if sc.hasClaims() {
+		w.setupDRA(ctx)
+	}
 	_, err := w.kube.CoreV1().Nodes().Create(ctx, w.nodeObject(), metav1.CreateOptions{})
 	mustCreate(err)
 	unlimited := schedulingv2.QueueResource{Quota: -1, Limit: -1, OverQuotaWeight: 1}
@@ -247,12 +256,17 @@ func newWorld(sc scenario, pods []string) *world {
 		}
 		_, err = w.kai.SchedulingV2alpha2().PodGroups(ns).Create(ctx, pg, metav1.CreateOptions{})
 		mustCreate(err)
-		_, err = w.kube.CoreV1().Pods(ns).Create(ctx, podObject(p, sc.Req[p], sc.Nd[p], i), metav1.CreateOptions{})
+		if w.isClaim(p) {
+			_, err = w.kube.ResourceV1().ResourceClaims(ns).Create(ctx, w.claimObject(p, i), metav1.CreateOptions{})
+			mustCreate(err)
+		}
+		_, err = w.kube.CoreV1().Pods(ns).Create(ctx, podObject(p, sc.Req[p], sc.Nd[p], sc.Cl[p], i), metav1.CreateOptions{})
 		mustCreate(err)
 	}
 
 	partition := &conf.SchedulingNodePoolParams{}
-	w.params = &conf.SchedulerParams{SchedulerName: schedulerName, PartitionParams: partition, NumOfStatusRecordingWorkers: 2}
+	w.params = &conf.SchedulerParams{SchedulerName: schedulerName, PartitionParams: partition, NumOfStatusRecordingWorkers: 2,
+		QueueLabelKey: commonconsts.DefaultQueueLabel} // only read by the dynamicresources plugin
 	w.schedCf, err = conf_util.GetDefaultSchedulerConf()
 	if err != nil {
 		infra("default scheduler conf: %v", err)
@@ -277,6 +291,11 @@ func newWorld(sc scenario, pods []string) *world {
 		for _, r := range []string{"pods", "nodes", "bindrequests", "podgroups", "queues"} {
 			up = up && w.watching[r]
 		}
+		if sc.hasClaims() {
+			for _, r := range []string{"resourceclaims", "resourceslices", "deviceclasses"} {
+				up = up && w.watching[r]
+			}
+		}
 		w.watchMu.Unlock()
 		if up {
 			break
@@ -285,6 +304,9 @@ func newWorld(sc scenario, pods []string) *world {
 			infra("the scheduler's informers did not start watching within %v", syncTimeout)
 		}
 		time.Sleep(200 * time.Microsecond)
+	}
+	if sc.hasClaims() {
+		w.waitDRAStart()
 	}
 
 	// binder side
@@ -372,7 +394,7 @@ func newWorld(sc scenario, pods []string) *world {
 }
 
 func (w *world) newReconciler() {
-	binder := binding.NewBinder(w.bclient, noReservation{w}, binderplugins.New())
+	binder := binding.NewBinder(w.bclient, noReservation{w}, w.binderPluginsFor())
 	w.reconciler = controllers.NewBindRequestReconciler(w.bclient, w.scheme, record.NewFakeRecorder(10000),
 		&controllers.ReconcilerParams{MaxConcurrentReconciles: 1, RateLimiterBaseDelaySeconds: 1, RateLimiterMaxDelaySeconds: 60},
 		binder, noReservation{w})
@@ -394,6 +416,9 @@ func (w *world) nodeObject() *corev1.Node {
 		corev1.ResourcePods:   resource.MustParse("110"),
 		"nvidia.com/gpu":      *resource.NewQuantity(int64(w.gpus()), resource.DecimalSI),
 	}
+	if w.sc.hasClaims() { // the GPUs of a DRA node are the devices of its ResourceSlice
+		delete(rl, "nvidia.com/gpu")
+	}
 	return &corev1.Node{
 		// a re-created node gets a new UID: waitInformers compares objects, an identical re-creation would be
 		// indistinguishable from the not-yet-processed deletion of its predecessor
@@ -403,10 +428,12 @@ func (w *world) nodeObject() *corev1.Node {
 	}
 }
 
-func podObject(name string, req int, nd int, idx int) *corev1.Pod {
+func podObject(name string, req int, nd int, cl int, idx int) *corev1.Pod {
 	requests := corev1.ResourceList{corev1.ResourceCPU: *resource.NewMilliQuantity(podMilliCPU, resource.DecimalSI)}
 	ann := map[string]string{commonconsts.PodGroupAnnotationForPod: "pg-" + name}
-	if req >= 100 {
+	if cl > 0 {
+		// the GPU comes through the resource claim
+	} else if req >= 100 {
 		requests["nvidia.com/gpu"] = *resource.NewQuantity(int64(req/100), resource.DecimalSI)
 	} else {
 		ann[commonconsts.GpuFraction] = fmt.Sprintf("%.2f", float64(req)/100)
@@ -414,13 +441,17 @@ func podObject(name string, req int, nd int, idx int) *corev1.Pod {
 			ann[commonconsts.GpuFractionsNumDevices] = fmt.Sprintf("%d", nd)
 		}
 	}
-	return &corev1.Pod{
+	pod := &corev1.Pod{
 		ObjectMeta: metav1.ObjectMeta{Name: name, Namespace: ns, UID: types.UID("pod-uid-" + name), Annotations: ann,
 			CreationTimestamp: metav1.NewTime(time.Date(2024, 1, 1, 0, 0, idx, 0, time.UTC))},
 		Spec: corev1.PodSpec{SchedulerName: schedulerName,
 			Containers: []corev1.Container{{Name: "c", Image: "img", Resources: corev1.ResourceRequirements{Requests: requests, Limits: requests.DeepCopy()}}}},
 		Status: corev1.PodStatus{Phase: corev1.PodPending},
 	}
+	if cl > 0 {
+		claimPodSpec(pod, name)
+	}
+	return pod
 }
 
 // noReservation stands in for the GPU reservation service (reservation pods are the subject of C11/C17).
@@ -595,6 +626,9 @@ func (w *world) barrier() {
 		}
 	}
 	wait(true, "create")
+	if w.sc.hasClaims() {
+		w.barrierDRA(name)
+	}
 	if err := w.kube.CoreV1().Nodes().Delete(ctx, name, metav1.DeleteOptions{}); err != nil {
 		infra("barrier node delete: %v", err)
 	}
@@ -866,7 +900,7 @@ func (w *world) projectStore() map[string]any {
 			w.created[p]++
 		}
 		e := map[string]any{"alive": b2i(pod != nil), "bound": 0, "node": "", "ex": b2i(br != nil), "ph": "", "fa": 0, "lim": -1,
-			"sel": "", "gen": w.created[p] % 2, "q": b2i(w.q[p]), "att": w.att[p], "fl": w.fl[p], "dev": []int{}, "lab": []int{}}
+			"sel": "", "gen": w.created[p] % 2, "q": b2i(w.q[p]), "att": w.att[p], "fl": w.fl[p], "dev": []int{}, "lab": []int{}, "inf": []int{}}
 		if pod != nil {
 			e["bound"] = b2i(pod.Spec.NodeName != "")
 			e["node"] = pod.Spec.NodeName
@@ -885,6 +919,24 @@ func (w *world) projectStore() map[string]any {
 			e["sel"] = br.Spec.SelectedNode
 			e["dev"] = w.slots(br.Spec.SelectedGPUGroups)
 		}
+		if w.isClaim(p) { // dev = the devices the request hands to the claim, lab = the devices the claim holds in the API
+			cdev := []int{}
+			if br != nil {
+				for _, ca := range br.Spec.ResourceClaimAllocations {
+					if ca.Name != podClaimRef {
+						cdev = append(cdev, 99)
+					}
+					cdev = append(cdev, devSlots(ca.Allocation)...)
+				}
+				sort.Ints(cdev)
+			}
+			e["dev"] = cdev
+			e["lab"] = []int{}
+			if c := w.getClaim(p); c != nil {
+				e["lab"] = devSlots(c.Status.Allocation)
+			}
+			e["inf"] = w.inflightDevices(p) // memory of the scheduler process, not of the store
+		}
 		pods[p] = e
 	}
 	return map[string]any{"up": b2i(w.nodeUp()), "flips": w.flips, "restarts": w.restarts, "leaks": w.leaks, "refusals": w.refusals, "panics": w.panics,
@@ -892,11 +944,11 @@ func (w *world) projectStore() map[string]any {
 }
 
 func noSnap(pods []string) map[string]any {
-	st, on, grp := map[string]any{}, map[string]any{}, map[string]any{}
+	st, on, grp, pcl := map[string]any{}, map[string]any{}, map[string]any{}, map[string]any{}
 	for _, p := range pods {
-		st[p], on[p], grp[p] = "", "", []int{}
+		st[p], on[p], grp[p], pcl[p] = "", "", []int{}, []int{}
 	}
-	return map[string]any{"st": st, "on": on, "grp": grp, "mem": make([]int, memSlots), "whole": 0, "idle": 0, "cpu": 0, "node": 0, "taken": 0}
+	return map[string]any{"st": st, "on": on, "grp": grp, "pcl": pcl, "used": []int{}, "mem": make([]int, memSlots), "whole": 0, "idle": 0, "cpu": 0, "node": 0, "taken": 0}
 }
 
 var noRec = map[string]any{"ran": 0, "err": 0, "rq": 0, "patched": 0, "bind": 0, "msg": ""}
@@ -904,7 +956,10 @@ var noRec = map[string]any{"ran": 0, "err": 0, "rq": 0, "patched": 0, "bind": 0,
 func (w *world) projectSnapshot(ssn *framework.Session) map[string]any {
 	out := noSnap(w.pods)
 	out["taken"] = 1
-	st, on, grp := out["st"].(map[string]any), out["on"].(map[string]any), out["grp"].(map[string]any)
+	st, on, grp, pcl := out["st"].(map[string]any), out["on"].(map[string]any), out["grp"].(map[string]any), out["pcl"].(map[string]any)
+	if w.sc.hasClaims() {
+		out["used"] = w.usedDevices(ssn)
+	}
 	for _, p := range w.pods {
 		st[p] = "None"
 	}
@@ -916,6 +971,16 @@ func (w *world) projectSnapshot(ssn *framework.Session) map[string]any {
 			st[pi.Name] = pi.Status.String()
 			on[pi.Name] = pi.NodeName
 			grp[pi.Name] = w.slots(pi.GPUGroups)
+			cd := []int{}
+			for ref, ca := range pi.ResourceClaimInfo {
+				if ref != podClaimRef || ca == nil {
+					cd = append(cd, 99)
+					continue
+				}
+				cd = append(cd, devSlots(ca.Allocation)...)
+			}
+			sort.Ints(cd)
+			pcl[pi.Name] = cd
 		}
 	}
 	if ni, found := ssn.ClusterInfo.Nodes[nodeName]; found {
@@ -1006,7 +1071,8 @@ func (w *world) reconcile(p string, mode string) map[string]any {
 	if mode == "faillabel" {
 		w.failReserveAt, w.failRollback = 2, true
 	}
-	w.bindCalled, w.bindFailed, w.getFailed = false, false, false
+	w.failClaimWrite = mode == "failclaim"
+	w.bindCalled, w.bindFailed, w.getFailed, w.claimWriteFailed = false, false, false, false
 	rvBefore := ""
 	cur := &schedulingv1alpha2.BindRequest{}
 	key := types.NamespacedName{Namespace: ns, Name: p}
@@ -1017,6 +1083,8 @@ func (w *world) reconcile(p string, mode string) map[string]any {
 	w.getFailed = false
 	res, err := w.reconciler.Reconcile(ctrllog.IntoContext(context.Background(), ctrllog.Log), ctrl.Request{NamespacedName: key})
 	getFailed, bindCalled, bindFailed := w.getFailed, w.bindCalled, w.bindFailed
+	claimWriteFailed := w.claimWriteFailed
+	w.failClaimWrite = false
 	reserveFailed := w.failReserveAt > 0 && w.reserveCalls >= w.failReserveAt
 	died := w.dead
 	w.failBind, w.failStatusPatch, w.panicBind = false, false, false
@@ -1039,7 +1107,7 @@ func (w *world) reconcile(p string, mode string) map[string]any {
 	if bindCalled {
 		w.att[p]++
 	}
-	if bindFailed || getFailed || reserveFailed {
+	if bindFailed || getFailed || reserveFailed || claimWriteFailed {
 		w.fl[p]++
 	}
 	if reserveFailed {
@@ -1105,15 +1173,28 @@ func (w *world) apply(s step) (map[string]any, map[string]any, int) {
 		if err := w.kube.CoreV1().Nodes().Delete(ctx, nodeName, metav1.DeleteOptions{}); err != nil {
 			infra("delete node: %v", err)
 		}
+		if w.sc.hasClaims() { // the node's DRA driver is gone with it
+			if err := w.kube.ResourceV1().ResourceSlices().Delete(ctx, w.sliceName(), metav1.DeleteOptions{}); err != nil {
+				infra("delete slice: %v", err)
+			}
+		}
 		w.flips++
 	case "NodeAdded":
 		if _, err := w.kube.CoreV1().Nodes().Create(ctx, w.nodeObject(), metav1.CreateOptions{}); err != nil {
 			infra("create node: %v", err)
 		}
+		if w.sc.hasClaims() {
+			if _, err := w.kube.ResourceV1().ResourceSlices().Create(ctx, w.sliceObject(), metav1.CreateOptions{}); err != nil {
+				infra("create slice: %v", err)
+			}
+		}
 		w.flips++
 	case "PodDeleted":
 		if err := w.kube.CoreV1().Pods(ns).Delete(ctx, s.P, metav1.DeleteOptions{}); err != nil {
 			infra("delete pod: %v", err)
+		}
+		if w.isClaim(s.P) {
+			w.releaseClaimOf(s.P)
 		}
 	case "GcBr": // the k8s garbage collector removes the BindRequest owned by a deleted pod
 		if err := w.kai.SchedulingV1alpha2().BindRequests(ns).Delete(ctx, s.P, metav1.DeleteOptions{}); err != nil {
@@ -1142,6 +1223,9 @@ func (w *world) enabled(s step, maxRestarts, maxFlips int) bool {
 		}
 		if s.Out == "panic" { // PanicEnabled in spec/Handoff.tla: also on a terminally failed request
 			return w.q[s.P] && w.reach(s.P)
+		}
+		if s.Out == "failclaim" {
+			return w.q[s.P] && w.reach(s.P) && w.isClaim(s.P)
 		}
 		return w.q[s.P]
 	case "BindDoneStatusLost":
@@ -1235,11 +1319,19 @@ func (w *world) drain(emit func(step)) int {
 
 // ---------------------------------------------------------------------------------------------------
 func runScenario(sc scenario, pods []string, tw *tracefmt.Writer, rnd *rand.Rand, randomLen int) {
+	if sc.hasClaims() { // a DRA node takes no device-plugin GPU requests: claim scenarios are claim-only
+		for _, p := range pods {
+			if sc.Cl[p] < 1 || sc.Req[p] != 100 || sc.Nd[p] > 1 {
+				infra("scenario %s: pod %s of a claim scenario must be a claim pod (cl = 1, req = 100, nd = 1)", sc.ID, p)
+			}
+		}
+	}
 	w := newWorld(sc, pods)
 	defer w.close()
-	req, nd := map[string]any{}, map[string]any{}
+	req, nd, cl := map[string]any{}, map[string]any{}, map[string]any{}
 	for _, p := range pods {
 		req[p] = sc.Req[p]
+		cl[p] = b2i(sc.Cl[p] > 0)
 		nd[p] = 1
 		if sc.Nd[p] > 1 {
 			nd[p] = sc.Nd[p]
@@ -1247,7 +1339,7 @@ func runScenario(sc scenario, pods []string, tw *tracefmt.Writer, rnd *rand.Rand
 	}
 	seq := 0
 	line := func(ev, p, out string, skip, conv int, snap, rec map[string]any) {
-		tw.Emit(map[string]any{"ev": ev, "id": sc.ID, "lim": sc.Lim, "gpus": w.gpus(), "req": req, "nd": nd, "seq": seq, "p": p, "out": out,
+		tw.Emit(map[string]any{"ev": ev, "id": sc.ID, "lim": sc.Lim, "gpus": w.gpus(), "req": req, "nd": nd, "cl": cl, "seq": seq, "p": p, "out": out,
 			"skip": skip, "conv": conv, "st": w.projectStore(), "snap": snap, "rec": rec})
 	}
 	line("Scenario", "", "", 0, 0, noSnap(pods), noRec)
@@ -1298,6 +1390,7 @@ func runScenario(sc scenario, pods []string, tw *tracefmt.Writer, rnd *rand.Rand
 			if w.leaks < 2 {
 				add(step{N: "BinderAttempt", P: p, Out: "faillabel"}, 3)
 			}
+			add(step{N: "BinderAttempt", P: p, Out: "failclaim"}, 5)
 			if !persistFail {
 				add(step{N: "BinderCrashAfterLabel", P: p}, 3)
 				add(step{N: "BinderAttempt", P: p, Out: "ok"}, 3)
@@ -1310,7 +1403,6 @@ func runScenario(sc scenario, pods []string, tw *tracefmt.Writer, rnd *rand.Rand
 	}
 }
 
-
 func main() {
 	in := flag.String("in", "", "ndjson schedules exported by TLC")
 	out := flag.String("out", "trace.ndjson", "ndjson trace")
@@ -1318,6 +1410,7 @@ func main() {
 	seed := flag.Int64("seed", 1, "seed")
 	length := flag.Int("len", 25, "length of a random schedule")
 	npods := flag.Int("pods", 3, "pods in a random scenario (names p1..pN)")
+	claimPct := flag.Int("claims", 0, "percentage of random scenarios in which the pods are DRA claim pods")
 	verbosity := flag.Int("v", 0, "scheduler log verbosity")
 	flag.Parse()
 
@@ -1365,7 +1458,8 @@ func main() {
 		lims := []int{-1, 0, 1, 2, 3, 4}
 		reqs := []int{100, 100, 50, 50, 25}
 		for i := 0; i < *random; i++ {
-			sc := scenario{ID: fmt.Sprintf("rnd-%d-%d", *seed, i), Lim: lims[rnd.Intn(len(lims))], Gpus: 1 + rnd.Intn(2), Req: map[string]int{}, Nd: map[string]int{}}
+			sc := scenario{ID: fmt.Sprintf("rnd-%d-%d", *seed, i), Lim: lims[rnd.Intn(len(lims))], Gpus: 1 + rnd.Intn(2), Req: map[string]int{}, Nd: map[string]int{}, Cl: map[string]int{}}
+			claims := *claimPct > 0 && rnd.Intn(100) < *claimPct // a claim scenario: every pod asks for its GPU through a DRA resource claim
 			var pods []string
 			for k := 1; k <= *npods; k++ {
 				p := fmt.Sprintf("p%d", k)
@@ -1374,6 +1468,9 @@ func main() {
 				sc.Nd[p] = 1
 				if sc.Req[p] < 100 && sc.Gpus > 1 && rnd.Intn(2) == 0 {
 					sc.Nd[p] = 2
+				}
+				if claims {
+					sc.Req[p], sc.Nd[p], sc.Cl[p] = 100, 1, 1
 				}
 				if k == 1 || rnd.Intn(5) > 0 {
 					sc.Present = append(sc.Present, p)
